@@ -404,11 +404,26 @@ func (w *World) ruleUntrustedInts(rule string) {
 						risky = true
 					}
 				case *ssa.Call:
-					// handed on to an extracted helper: its parameter is the same integer
+					// handed on to an extracted helper: its parameter is the same integer, and so is a result computed from it
 					if h := helperCallee(x); h != nil {
 						for j, a := range x.Call.Args {
 							if a == v && j < len(h.Params) {
 								visit(h.Params[j])
+								for _, r := range returnsFlat(h) {
+									for k, rv := range r.Results {
+										if _, isC := constOf(rv); isC || !dependsOnParam(rv, h.Params[j], 0) {
+											continue
+										}
+										if len(r.Results) == 1 {
+											visit(x)
+										}
+										for _, ref2 := range *x.Referrers() {
+											if ex, ok := ref2.(*ssa.Extract); ok && ex.Index == k {
+												visit(ex)
+											}
+										}
+									}
+								}
 							}
 						}
 					}
@@ -441,6 +456,20 @@ func (w *World) ruleUntrustedInts(rule string) {
 							guarded = true
 						}
 					}
+				}
+				if !guarded {
+					// the range test written out at the use (inside a validating helper): 0 <= v, v < <recv>.size
+					hasLo, hasHi := false, false
+					vs := render(stripConv(v))
+					for _, f := range w.factsAt(ref) {
+						if f.Expr == vs+" >= 0" {
+							hasLo = true
+						}
+						if strings.HasPrefix(f.Expr, vs+" < ") && strings.HasSuffix(f.Expr, ".size") {
+							hasHi = true
+						}
+					}
+					guarded = hasLo && hasHi
 				}
 				if !(guarded && invOK) && bad == "" {
 					bad = fmt.Sprintf("`%s` is narrowed/used as an index at %s without the range validation (0 <= %s < size) dominating it", p.Name(), w.pos(posOf(ref)), p.Name())
